@@ -13,6 +13,7 @@
 package main
 
 import (
+	"bytes"
 	"encoding/json"
 	"fmt"
 	"io/ioutil"
@@ -50,6 +51,9 @@ type CIn struct {
 	Openable bool    `json:"openable"`
 	Init     []int   `json:"init,omitempty"`
 	Bursts   [][]int `json:"bursts"` // per burst: target length of each encoded event
+	// Big: one burst of more than 500 KiB without idle gap (the size flush fires during the burst
+	// and may rotate hundreds of times): the second of each rotation is read off the file names
+	Big bool `json:"big,omitempty"`
 }
 
 type Input struct {
@@ -276,22 +280,60 @@ func runW(in WIn, dir string) (ob Obs, batches [][]byte, initB []byte, crash str
 
 // ---- Coq rendering ----
 
+// hexTerm renders n in base 16 with the constructors Q0..QF of Check.v, most significant digit
+// outermost: 0x17b = Q1 (Q7 (QB Qz)).
+func hexTerm(n int) string {
+	if n == 0 {
+		return "Qz"
+	}
+	h := strings.ToUpper(strconv.FormatInt(int64(n), 16))
+	var sb strings.Builder
+	for i := 0; i < len(h); i++ {
+		sb.WriteString("(Q")
+		sb.WriteByte(h[i])
+		sb.WriteByte(' ')
+	}
+	sb.WriteString("Qz")
+	sb.WriteString(strings.Repeat(")", len(h)))
+	return sb.String()
+}
+
+// dict mirrors DICT in Check.v: an item with count 0 refers to entry number b.
+var dict = [][]byte{
+	[]byte(`{"date":"d","i":`),
+	[]byte(`,"p":"`),
+	[]byte("\"}\n"),
+	[]byte(`{"i":`),
+}
+
 func coqRLE(b []byte) string {
 	if len(b) == 0 {
-		return "(@nil int)"
+		return "(@nil hx)"
 	}
-	// one run = byte + 256*count, as a primitive-integer literal
+	// item = byte + 256*count (a run) or, with count 0, a dictionary entry
 	var runs []string
 	for i := 0; i < len(b); {
+		hit := -1
+		for k, d := range dict {
+			if b[i] == d[0] && bytes.HasPrefix(b[i:], d) {
+				hit = k
+				break
+			}
+		}
+		if hit >= 0 {
+			runs = append(runs, hexTerm(hit))
+			i += len(dict[hit])
+			continue
+		}
 		j := i
 		for j < len(b) && b[j] == b[i] {
 			j++
 		}
-		runs = append(runs, strconv.Itoa(int(b[i])+256*(j-i)))
+		runs = append(runs, hexTerm(int(b[i])+256*(j-i)))
 		i = j
 	}
 	if len(runs) <= 400 {
-		return "[" + strings.Join(runs, ";") + "]%uint63"
+		return "[" + strings.Join(runs, ";") + "]"
 	}
 	var parts []string
 	for i := 0; i < len(runs); i += 400 {
@@ -299,7 +341,7 @@ func coqRLE(b []byte) string {
 		if j > len(runs) {
 			j = len(runs)
 		}
-		parts = append(parts, "["+strings.Join(runs[i:j], ";")+"]%uint63")
+		parts = append(parts, "["+strings.Join(runs[i:j], ";")+"]")
 	}
 	return "(List.concat [" + strings.Join(parts, ";\n ") + "])"
 }
@@ -464,6 +506,23 @@ func runC(in CIn, dir string) (ob Obs, lines [][][]byte, initB []byte, crash str
 			total += len(b)
 		}
 		lines = append(lines, bl)
+		if in.Big {
+			if !sendTimeout(ch, evs, 60*time.Second) {
+				ob.Blocked = true
+				break
+			}
+			// quiescence: nothing changed for 1.5 s (the idle flush has happened)
+			last, lastChange := takeSnap(path), time.Now()
+			deadline := time.Now().Add(60 * time.Second)
+			for time.Now().Before(deadline) && time.Since(lastChange) < 1500*time.Millisecond {
+				time.Sleep(10 * time.Millisecond)
+				if sn := takeSnap(path); sn != last {
+					last, lastChange = sn, time.Now()
+				}
+			}
+			ob.Secs = append(ob.Secs, 0, 0)
+			continue
+		}
 		alignSecond()
 		s1 := time.Now().Unix()
 		t0 := time.Now()
@@ -532,8 +591,15 @@ func coqC(id int, in CIn, ob Obs, lines [][][]byte, initB []byte) string {
 		}
 		bs = append(bs, fmt.Sprintf("(%s, %s, %s)", hx.CoqN(uint64(s1)), hx.CoqN(uint64(s2)), coqRLEs(bl)))
 	}
-	return fmt.Sprintf("CC (mkC %s %s %s %s %s %s %s %s %s)", hx.CoqN(uint64(id)), hx.CoqZ(in.Max), hx.CoqBool(in.Openable),
-		hx.CoqN(uint64(ob.Sec0)), coqRLE(initB), hx.CoqList(bs, "(N * N * list rle)"), hx.CoqBool(ob.Blocked), coqRLE(ob.cur), coqRot(ob.Rot))
+	var clock []string
+	if in.Big {
+		for _, r := range ob.Rot { // sorted by (second, k) = order of rotation
+			clock = append(clock, hx.CoqN(uint64(r.Sec)))
+		}
+	}
+	return fmt.Sprintf("CC (mkC %s %s %s %s %s %s %s %s %s %s)", hx.CoqN(uint64(id)), hx.CoqZ(in.Max), hx.CoqBool(in.Openable),
+		hx.CoqN(uint64(ob.Sec0)), coqRLE(initB), hx.CoqList(bs, "(N * N * list rle)"), hx.CoqList(clock, "N"),
+		hx.CoqBool(ob.Blocked), coqRLE(ob.cur), coqRot(ob.Rot))
 }
 
 // ---- generators ----
@@ -689,6 +755,18 @@ func genC(r *hx.Rand) CIn {
 	return in
 }
 
+// bigBurst: one burst without idle gap, the pattern of event lengths repeated up to total bytes
+// (more than the 500 KiB flush threshold, so the size flush happens inside the burst).
+func bigBurst(max int64, pattern []int, total int) CIn {
+	var b []int
+	for sum, i := 0, 0; sum < total; i++ {
+		n := pattern[i%len(pattern)]
+		b = append(b, n)
+		sum += n
+	}
+	return CIn{Max: max, Openable: true, Big: true, Bursts: [][]int{b}}
+}
+
 func rep(n, k int) []int {
 	out := make([]int, k)
 	for i := range out {
@@ -818,6 +896,26 @@ func main() {
 		if o.Tier == "thorough" {
 			c(CIn{Max: 1 << 20, Openable: true, Bursts: [][]int{rep(2000, 300), rep(2000, 300)}})
 		}
+		// more than 500 KiB through the channel without idle gap into small files: the size flush
+		// hands one large batch to Write, which must consist of whole lines (last, so that each
+		// lands in a shard of its own)
+		pad := func() {
+			for len(ins)%60 != 0 {
+				w(genW(r, false))
+			}
+		}
+		pad()
+		c(bigBurst(1024, []int{350}, 546000))
+		pad()
+		c(bigBurst(4096, []int{97, 1000, 350}, 560000))
+		if o.Tier != "quick" {
+			for _, x := range []CIn{bigBurst(1024, []int{97}, 530000), bigBurst(1024, []int{1000}, 600000),
+				bigBurst(1024, []int{350, 97, 1000}, 580000), bigBurst(4096, []int{350}, 540000),
+				bigBurst(4096, []int{1000}, 600000), bigBurst(1024, []int{350, 1030, 97}, 560000)} {
+				pad()
+				c(x)
+			}
+		}
 	}
 
 	scratch := filepath.Join(o.Out, "scratch")
@@ -886,5 +984,5 @@ func main() {
 		dist[fmt.Sprintf("rotated-files-at-end:%d", nr)]++
 	}
 	dist["clock-ambiguous-reruns"] = int(atomic.LoadInt64(&clockRetries))
-	hx.Write(o, "C07", "rotate", "From Coq Require Import Uint63.\nFrom HT Require Import Common.Bytes C07.Model C07.Check.", "case", cases, dist, nil, 60)
+	hx.Write(o, "C07", "rotate", "From HT Require Import Common.Bytes C07.Model C07.Check.", "case", cases, dist, nil, 60)
 }
